@@ -627,6 +627,29 @@ def map_drain(ctx: Ctx) -> None:
     for y in m.yields:
         yn = cfg.node_of(y)
         ctx.ob(d, y, cfg.in_loop(yn, m.fin_loop.id), "results are yielded only while iterating the finished batch", sel="drain:yield-in-finished")
+    # batching: after the partition may have emptied `pending`, a refill is attempted before the
+    # loop test is evaluated again — otherwise the map ends with batches left unsubmitted
+    refills = []
+    for n in d.own_nodes():
+        if isinstance(n, ast.Call) and isinstance(n.func, ast.Name) and n.func.id == "next" and cfg.has(n) and cfg.in_loop(cfg.node_of(n), m.main.id):
+            refills.append(n)
+    for n in refills:
+        rn = cfg.node_of(n)
+        # the outermost branch inside the main loop that guards the refill
+        guards = [b for _, _, b in cfg.branch_conditions(rn) if cfg.in_loop(b, m.main.id)]
+        g = guards[0] if guards else rn
+        for b in guards:
+            if cfg.dominates(b, g):
+                g = b
+        ok = cfg.all_paths_pass(m.partition.id, m.main.id, {g}) and cfg.can_reach(m.partition.id, g, avoid={m.main.id})
+        ctx.ob(
+            d,
+            n,
+            ok,
+            "the batch refill is attempted between the wait (which may empty `pending`) and the next evaluation of `while pending`"
+            + ("" if ok else " — it is not: when the last in-flight tasks of a batch finish together the loop ends with input batches never submitted"),
+            sel="drain:refill-after-wait",
+        )
     # pending shrinks only by the partition and by removing a delivered task's twin
     for n in d.own_nodes():
         if isinstance(n, ast.Call) and isinstance(n.func, ast.Attribute) and isinstance(n.func.value, ast.Name) and n.func.value.id == m.pending and n.func.attr in MUTATORS_SHRINK:
